@@ -11,6 +11,8 @@ import Upa.Impl.ObjRep
 import Upa.Spec.Api
 import Upa.Spec.Form
 import Upa.Spec.Serializer
+import Upa.Impl.BoundsUrl
+import Upa.Impl.BoundsMisc
 /-
   Line-protocol driver: executes an operation file on the models (`Impl`, and `Spec` where the
   Standard has an answer) and prints one canonical line per operation: `<impl answer> ## <spec answer>`.
@@ -144,6 +146,29 @@ def optBytes (o : Option (List Nat)) : String := match o with | some l => "1:" +
 
 def fmtOf (s : String) : PathFormat := if s == "windows" then .windows else .posix
 
+/-! ### cross-check of the bounds-instrumented models (Impl/BoundsUrl.lean, Impl/BoundsMisc.lean; property C04)
+   The instrumented `url_parse` (every read and every pointer checked) runs on the code units of every parse / setter
+   call with the real host parser verdict plugged in; it must end in `.ok` with the verdict of the list model the other
+   theorems are about.  A disagreement is appended to the Impl column, where the C++ line has nothing: it shows up as a
+   broken correspondence of the model, never silently. -/
+def boundsVerdict (idna : Idna) (e : Enc) (units : List Nat) (base : Option Url) (ov : Option Override) (u : Url) (expected : Bool) : String :=
+  match Upa.Impl.B.urlParseVerdictB idna e units base ov u with
+  | some v => if v == expected then "" else " BOUNDSMODEL-VERDICT-DIFFERS"
+  | none => " BOUNDSMODEL-NOT-OK"
+
+def boundsSet (idna : Idna) (s : Setter) (e : Enc) (units : List Nat) (u : Url) : String :=
+  let run (ov : Override) (u : Url) (units : List Nat) : String :=
+    boundsVerdict idna e units none (some ov) u ((urlParse idna none (some ov) u (prep e units)).out == .ok)
+  match s with
+  | .protocol => run .schemeStart u units
+  | .host => if !u.hasOpaquePath then run .host u units else ""
+  | .hostname => if !u.hasOpaquePath then run .hostname u units else ""
+  | .port => if canHaveUsernamePasswordPort u && !units.isEmpty then run .port u units else ""
+  | .pathname => if !u.hasOpaquePath then run .pathStart { u with path := [] } units else ""
+  | .search => match units with | [] => "" | c :: r => run .query u (if c = 0x3F then r else units)
+  | .hash => match units with | [] => "" | c :: r => run .fragment u (if c = 0x23 then r else units)
+  | _ => ""
+
 def exec (idna : Idna) (st : St) (toks : List String) : St × String :=
   match toks with
   | ["case"] => ({}, "case")
@@ -169,8 +194,11 @@ def exec (idna : Idna) (st : St) (toks : List String) : St × String :=
     let (sres, sok) : Option Url × Bool := match bS with
       | some none => (none, false)
       | _ => let r := Spec.apiParse idna e u (bS.bind id); (r, r.isSome)
+    let bchk := match bI with
+      | some none => ""
+      | _ => boundsVerdict idna e (doTrim u) (bI.bind id) none {} (Impl.parse idna e u (bI.bind id)).isSome
     ({ st with objs := st.objs.set! k o', specs := st.specs.set! k sres, robjs := st.robjs.set! k ro' },
-     s!"ok={b01 ok} cp={b01 cp} {dumpImpl idna o'.url}{spDump o'}{rpeDump ro'} ## ok={b01 sok} {dumpSpec idna sres}")
+     s!"ok={b01 ok} cp={b01 cp} {dumpImpl idna o'.url}{spDump o'}{rpeDump ro'}{bchk} ## ok={b01 sok} {dumpSpec idna sres}")
   | ["set", slot, setter, enc, units] =>
     let k := slot.toNat!
     let e := parseEnc enc
@@ -181,8 +209,9 @@ def exec (idna : Idna) (st : St) (toks : List String) : St × String :=
       | some su => some (Spec.apiSet idna s e u su)
       | none => if s == .href then Spec.apiParse idna e u none else none
     let ro' := (st.robjs[k]!.set idna s e u).1
+    let bchk := match st.objs[k]!.url with | some cur => boundsSet idna s e u cur | none => ""
     ({ st with objs := st.objs.set! k o', specs := st.specs.set! k sres, robjs := st.robjs.set! k ro' },
-     s!"ret={b01 ret} {dumpImpl idna o'.url}{spDump o'}{rpeDump ro'} ## {dumpSpec idna sres}")
+     s!"ret={b01 ret} {dumpImpl idna o'.url}{spDump o'}{rpeDump ro'}{bchk} ## {dumpSpec idna sres}")
   | ["dump", slot] =>
     let k := slot.toNat!
     (st, s!"{dumpImpl idna st.objs[k]!.url}{spDump st.objs[k]!}{rpeDump st.robjs[k]!} ## {dumpSpec idna st.specs[k]!}")
